@@ -333,6 +333,9 @@ pub struct OrderTrack {
     /// so per-order attribution of fund movements is no longer possible (two-order sum only)
     pub entangled: bool,
     pub entangle_count: u32,
+    /// an accepted request on this order was outside the numerically decidable zone (a
+    /// product beyond 96 bits / 28 digits): the order's later arithmetic gets no verdict
+    pub tainted: bool,
     pub post_conversion_calls: u32,
     /// bids: the log an event-log (legacy) record of this bid would hold
     pub events: Vec<Ev>,
@@ -813,12 +816,14 @@ impl Runner {
                 }
             }
         }
+        let out_of_zone = exp.zone.is_some();
         for id in &ask_ids {
             let e = t.asks.entry(id.clone()).or_default();
             if moved {
                 e.fund_calls += 1;
             }
             e.modified += 1;
+            e.tainted |= out_of_zone;
         }
         for id in &bid_ids {
             let e = t.bids.entry(id.clone()).or_default();
@@ -826,6 +831,7 @@ impl Runner {
                 e.fund_calls += 1;
             }
             e.modified += 1;
+            e.tainted |= out_of_zone;
             if e.converted {
                 e.post_conversion_calls += 1;
             }
